@@ -234,6 +234,7 @@ pub fn history_case(g: &mut Gen, cfg: &PicCfg, max_len: usize) -> Verdict {
     if d_then_p_distinguishing > 0 {
         labels.push("P/D after D distinguishes reference from most recent");
     }
+    labels.sort();
     labels.dedup();
     Verdict::pass_l(d_then_p_distinguishing > 0, key, labels)
 }
